@@ -97,6 +97,30 @@ def check_sequence(seq, via_dir=False):
         shutil.rmtree(d, ignore_errors=True)
 
 
+def check_same_content_headers(order):
+    """util.h (correct guard UTIL_H) and a byte-identical copy compat.h in one run: the copy
+    has a wrong guard for its name, the original is clean"""
+    d = tempfile.mkdtemp(prefix="c04_")
+    try:
+        body = ("\n#ifndef UTIL_H\n# define UTIL_H\n\nint\tft_fa(int c, char **d);\n\n#endif\n")
+        text = HEADER.format(name="util.h") + body
+        names = ["util.h", "compat.h"]
+        for nm in names:
+            with open(os.path.join(d, nm), "w") as fh:
+                fh.write(text)
+        args = [names[i] for i in order]
+        rc, out, err = run_cli(args, d)
+        got = dict(verdict_lines(out))
+        want = {"util.h": "OK", "compat.h": "Error"}
+        if got != want:
+            return f"two headers with the same bytes, arguments {args}: verdicts {got}, expected {want}"
+        if rc == 0:
+            return f"two headers with the same bytes, arguments {args}: exit status 0 although compat.h is Error!"
+        return None
+    finally:
+        shutil.rmtree(d, ignore_errors=True)
+
+
 def op_search(task):
     classes = ["clean", "notice", "error", "fatal"]
     maxlen = task.get("maxlen", 3)
@@ -119,7 +143,13 @@ def op_search(task):
             cases += 1
             if m:
                 viol.append({"what": m, "task": {"op": "one", "seq": s, "via_dir": via}})
-    viol.sort(key=lambda v: len(v["task"]["seq"]))
+    # the verdict of a file comes from its own analysis: same bytes under two header names
+    for order in ((0, 1), (1, 0)):
+        cases += 1
+        m = check_same_content_headers(order)
+        if m:
+            viol.append({"what": m, "task": {"op": "same_content", "order": list(order)}})
+    viol.sort(key=lambda v: len(v["task"].get("seq", [0, 0])))
     return {"cases": cases, "nontrivial": len(jobs), "violations": viol[:5],
             "samples": [{"seq": j[0], "via_dir": j[1]} for j in jobs[5:8]],
             "bound": f"all sequences (with repetition, all orders) of length 0..{maxlen} over {{clean, notice-only, "
@@ -134,7 +164,8 @@ def op_one(task):
 
 def main():
     task = json.load(sys.stdin)
-    out = {"search": op_search, "one": op_one}[task["op"]](task)
+    out = {"search": op_search, "one": op_one,
+           "same_content": lambda t: {"violations": [m for m in [check_same_content_headers(tuple(t["order"]))] if m]}}[task["op"]](task)
     json.dump(out, sys.stdout)
 
 
